@@ -1,5 +1,10 @@
 package main
 
+import (
+	"go/token"
+	"strings"
+)
+
 // C01 — an acknowledged sync restores to exactly the source database.
 
 func init() {
@@ -32,6 +37,11 @@ func runC01(c *Ctx) {
 	ltxHeaderRules(c)
 	syncResultRules(c)
 	pageCopyRules(c, "R7-lock-page", false)
+	checkpointProtocolRules(c)
+	// the continuity decision's necessary conditions (shared with C04)
+	c04DefaultDeny(c)
+	c04Helpers(c)
+	c01Ack(c)
 }
 
 // ackExceptions: the frozen table of deliberate tolerances on acknowledgement
@@ -49,4 +59,63 @@ var ackExceptions = []EFException{
 	{Fn: "(*ls.WALReader).FrameSaltsUntil", Callee: "iface:io.ReaderAt.ReadAt", Reason: "a short read is the end of the WAL; other errors are returned"},
 	{Fn: "(*ls.WALReader).pageMap", Callee: "(*ls.WALReader).ReadFrame", Tolerate: []string{"errors.Is:io.EOF"}, Reason: "EOF is the end of the valid WAL (C09-R3 checks that nothing is read after it)"},
 	{Fn: "ls.rollback", Callee: "(*database/sql.Tx).Rollback", Reason: "only 'already rolled back' is suppressed (string match on the driver's message)"},
+}
+
+// c01Ack: explicit acknowledgement entry points (R1-R4).
+func c01Ack(c *Ctx) {
+	const rule = "R1-ack-entry-points"
+	if fn := c.fn(rule, "(*ls.DB).SyncAndWait"); fn != nil {
+		ds := callsTo(fn, nameIs("(*ls.DB).Sync"))
+		rs := callsTo(fn, nameIs("(*ls.Replica).Sync"))
+		c.floor(rule, len(ds), 1, "DB.Sync in SyncAndWait")
+		c.floor(rule, len(rs), 1, "Replica.Sync in SyncAndWait")
+		for _, d := range ds {
+			for _, r := range rs {
+				c.check(dominates(d, r), rule, fnName(fn)+": DB.Sync precedes Replica.Sync", c.pos(r), "ordered", "upload before the WAL copy")
+			}
+		}
+		for _, call := range append(ds, rs...) {
+			okF, why := failStopOK(fn, call)
+			c.check(okF, rule, fnName(fn)+": "+calleeName(call)+" failure is returned", c.pos(call), "fail-stop", why)
+		}
+	}
+	if fn := c.fn(rule, "(*ls.Store).SyncDB"); fn != nil {
+		for _, call := range callsTo(fn, nameIs("(*ls.DB).SyncAndWait", "(*ls.DB).Sync")) {
+			okF, why := failStopOK(fn, call)
+			c.check(okF, rule, fnName(fn)+": "+calleeName(call)+" failure is returned", c.pos(call), "fail-stop", why)
+		}
+		for _, call := range callsTo(fn, nameIs("(*ls.DB).SyncAndWait")) {
+			c.requireGuard(rule, fn, Site{call, "SyncAndWait"}, truthFact(vParam("wait"), true, "wait"))
+		}
+	}
+	// HTTP handler: 200 only after SyncDB succeeded
+	for _, fn := range c.P.ProdFuncs() {
+		if len(callsTo(fn, nameIs("(*ls.Store).SyncDB"))) == 0 {
+			continue
+		}
+		for _, sd := range callsTo(fn, nameIs("(*ls.Store).SyncDB")) {
+			if errResultIndex(fn.Signature) >= 0 {
+				okF, why := failStopOK(fn, sd)
+				c.check(okF, rule, fnName(fn)+": SyncDB failure is returned", c.pos(sd), "fail-stop", why)
+				continue
+			}
+			// handler without error result: every 200 response / success JSON is cut by the nil edge
+			n := 0
+			for _, call := range calls(fn) {
+				nm := calleeName(call)
+				if nm == "ls.writeJSON" || nm == "(*ls.Server).writeJSON" || strings.HasSuffix(nm, ".writeJSON") {
+					if len(call.Common().Args) >= 2 && vConstInt(200)(call.Common().Args[len(call.Common().Args)-2]) {
+						n++
+						if !reachable(fn, sd.Block(), nil)[call.Block()] {
+							continue
+						}
+						c.requireGuard(rule, fn, Site{call, "200 OK response"}, cmpFact(vIs(resultOf(sd, 1)), token.EQL, vNil(), "SyncDB err == nil"))
+					}
+				}
+			}
+			c.touch(fn)
+			_ = n
+		}
+	}
+	// Store.Close returns the first non-interrupt error of any DB.Close: covered by the cone walk
 }
